@@ -338,6 +338,10 @@ def check_order_complete(ctx):
                            'the search stops early after moving `%s` to the order: %s' % (U(moved)[:70], 'the whole remaining work list' if whole else
                            'only the attributes that pass the filter - the others are in no elimination order, and synthetic_data never generates their columns'),
                            construct='early exit of the greedy search')
+                elif not empty and pruned_exit(ctx, fi, lp, block, i, guards, WORK) is not None:
+                    okp, whyp = pruned_exit(ctx, fi, lp, block, i, guards, WORK)
+                    ctx.ob('order-complete', fi, s_, okp, 'a candidate order may be abandoned once it cannot beat a bound handed in by the caller: ' + whyp,
+                           construct='early exit of the greedy search')
                 else:
                     ctx.ob('order-complete', fi, s_, empty,
                            'the search stops early %s' % ('when no attribute is left' if empty else 'although attributes may be left in `%s`: they are in no '
@@ -349,6 +353,56 @@ def check_order_complete(ctx):
             elif isinstance(s_, (ast.With, ast.Try)):
                 exits(s_.body, guards)
     exits(lp.body, [])
+
+
+def pruned_exit(ctx, fi, lp, block, i, guards, WORK):
+    """`if B is not None and COST >= B: break` with B an optional parameter (default None) and COST the accumulated cost the function returns next
+    to the order: sound when (a) the test reads the cost AFTER this round's cost was added - what is returned is then >= B - and (b) every caller
+    that hands a bound in accepts the result only under a STRICT `cost < bound` test against that very bound.  -> (ok, why) or None (another shape)"""
+    defaults = fi.defaults()
+    gs = []
+    for g in guards:
+        gs.extend(g.values if isinstance(g, ast.BoolOp) and isinstance(g.op, ast.And) else [g])
+    B = next((T(g.left) for g in gs if isinstance(g, ast.Compare) and len(g.ops) == 1 and isinstance(g.ops[0], ast.IsNot) and T(g.comparators[0]) == 'None'
+              and T(g.left) in fi.params and isinstance(defaults.get(T(g.left)), ast.Constant) and defaults[T(g.left)].value is None), None)
+    if B is None:
+        return None
+    rets = [r for r in ast.walk(fi.node) if isinstance(r, ast.Return) and isinstance(r.value, ast.Tuple) and len(r.value.elts) == 2]
+    if not rets:
+        return None
+    COST = T(rets[-1].value.elts[1])
+    cmp_ = [g for g in gs if isinstance(g, ast.Compare) and len(g.ops) == 1 and isinstance(g.ops[0], (ast.GtE, ast.Gt)) and T(g.comparators[0]) == B]
+    if len(cmp_) != 1:
+        return None
+    lhs = T(cmp_[0].left)
+    # position of the guarded exit among the statements of the round
+    top = [st for st in lp.body if any(x is block[i] for x in ast.walk(st))]
+    k = lp.body.index(top[0]) if top else -1
+    added_before = any(isinstance(st, ast.AugAssign) and T(st.target) == COST and isinstance(st.op, ast.Add) for st in lp.body[:k])
+    if lhs != COST:
+        return False, ('the test reads `%s`, not the accumulated cost `%s` that is returned: the abandoned candidate comes back with a cost BELOW the bound '
+                       'and a truncated order, which a caller comparing costs accepts' % (U(cmp_[0].left), COST))
+    if not added_before:
+        return False, 'the test runs before this round\'s cost is added to `%s`: the candidate is abandoned although the returned cost may still be below the bound' % COST
+    # callers that pass the bound
+    pos = fi.params.index(B) - 1
+    for q_, f_ in fi.module.funcs.items():
+        for c in ast.walk(f_.node):
+            if isinstance(c, ast.Call) and T(c.func) == 'self.' + fi.name:
+                given = c.args[pos] if len(c.args) > pos else next((kw.value for kw in c.keywords if kw.arg == B), None)
+                if given is None or T(given) == 'None':
+                    continue
+                tgt = [a.targets[0].id for a in ast.walk(f_.node) if isinstance(a, ast.Assign) and a.value is c and len(a.targets) == 1 and isinstance(a.targets[0], ast.Name)]
+                if len(tgt) != 1:
+                    raise AnalysisError('%s: result of a bounded search in `%s` is not bound to a name' % (fi.qualname, q_))
+                strict = any(isinstance(t_, ast.If) and T(t_.test) in ('%s[1]<%s' % (tgt[0], T(given)), '%s>%s[1]' % (T(given), tgt[0])) for t_ in ast.walk(f_.node))
+                reads = [n for n in ast.walk(f_.node) if isinstance(n, ast.Name) and n.id == tgt[0] and isinstance(n.ctx, ast.Load)]
+                guarded = all(any(isinstance(t_, ast.If) and T(t_.test) in ('%s[1]<%s' % (tgt[0], T(given)), '%s>%s[1]' % (T(given), tgt[0])) and
+                                  any(x is n for b_ in t_.body for x in ast.walk(b_)) or any(x is n for x in ast.walk(t_.test)) for t_ in ast.walk(f_.node) if isinstance(t_, ast.If))
+                              for n in reads)
+                if not (strict and guarded):
+                    return False, 'the caller `%s` uses the result of a bounded search without the strict test `%s[1] < %s`' % (q_, tgt[0], U(given))
+    return True, 'the returned cost is then at least the bound, and every caller that passes a bound accepts a candidate only when its cost is strictly below it'
 
 
 def strip_order(t):
